@@ -225,6 +225,17 @@ def last_year_civils(zone):
     return sorted(res)
 
 
+def close_zones():
+    """loadable files outside the `Separated` hypothesis of the C02/C03/C06 theorems (finding F23): the footer puts the end of
+    daylight time one hour BEFORE its start on the same day, with a saving of two hours, so that two changes of two hours
+    lie one hour apart and a civil second can be shown before the first and skipped by the second"""
+    out = []
+    for f in (b'AAA0BBB-2,J100/2,J100/3', b'XST-1XDT-3,M3.2.0/2,M3.2.0/3:30'):
+        z = T.TZif(2, [946684800], [0], [(0, False, 0), (3600, True, 4)], b'AAA\0BBB\0', f)
+        out.append(Zone('close/' + f.decode(), T.write(z), 'irregular'))
+    return out
+
+
 def rejected_zones():
     """well-formed TZif files that Load() must reject: two offset changes that cross in civil time
     (the civil second shown at the second change is not later than the one shown at the first), so that the
@@ -236,7 +247,7 @@ def rejected_zones():
             z = T.TZif(2, [t0, t0 + gap, t0 + 40 * 86400], [1, 0, 1], [(0, False, 0), (up, True, 4)], b'XST\0XDT\0', footer)
             out.append(Zone('rejected/crossed-%d%s' % (k, '-footer' if footer else ''), T.write(z), 'rejected'))
     # a footer rule whose daylight period is shorter than its saving: the GENERATED transitions cross in civil time every year
-    for f in (b'AAA0BBB,J100/2,J100/3:30', b'AAA0BBB-2,J100/2,J100/3', b'XST-1XDT-3,M3.2.0/2,M3.2.0/3:30'):
+    for f in (b'AAA0BBB,J100/2,J100/3:30', b'AAA0BBB-2,J100/2,J100/5', b'XST-1XDT-3,M3.2.0/2,M3.2.0/5:30'):
         z = T.TZif(2, [946684800], [0], [(0, False, 0), (3600, True, 4)], b'AAA\0BBB\0', f)
         out.append(Zone('rejected/generated-crossing-' + f.decode(), T.write(z), 'rejected'))
     # two transitions at the same instant: the table would not be strictly ordered by time
